@@ -72,3 +72,24 @@ func TestC12(t *testing.T) {
 		},
 		Oracle: OracleC12})
 }
+
+var knobsProbe = Knobs{MinInst: 1, MaxInst: 3, LatFrac: 0.3, WatchDelayH: 1, Faults: true, Takeover: true, Stops: true, Ext: true, Probes: true,
+	ExtMax: 8, ProbeMax: 14, ProbeAtExt: true, MinHorizonH: 12, MaxHorizonH: 30}
+
+func TestC04(t *testing.T) {
+	RunCheck(t, CheckSpec{Prop: "C04",
+		Rule:   "1-3 instances with ValidateToken / ValidateTokenOrDemote probes (contexts: background, already cancelled, deadline, cancelled mid-call) at generated times and around outside writes; record contents from a descriptor grammar (canonical, reordered, previous-term / near-miss / escaped tokens, other ids, wrong types, missing fields, duplicate and case-variant keys, arrays, scalars, non-JSON, BOM, invalid UTF-8, deep nesting, 256KiB-1MiB values, raw bytes), deletions, takeovers, stops, Get faults and partitions; oracle: true => a Get of the caller inside the call returned, and a version live during the call is, a JSON object with string id == own id and string token == the term token (independent token-stream reader), leader at call, context not cancelled; false is required otherwise; a stable own canonical record with a clean read must yield true; ValidateTokenOrDemote false => IsLeader()==false at return and OnDemote invoked for the term. Non-trivial = a probe whose call window overlaps a record change, or a probed record that is a JSON object but not the canonical payload; distinct by plan hash.",
+		Gen:    func(t *rapid.T) *Plan { return GenPlan(t, "probe", knobsProbe) },
+		Oracle: OracleC04})
+}
+
+var knobsTamper = Knobs{MinInst: 1, MaxInst: 4, LatFrac: 0.3, WatchDelayH: 1, Takeover: true, Stops: true, Ext: true, Probes: true,
+	ExtMax: 10, ProbeAtExt: true, Promote: true, MinHorizonH: 12, MaxHorizonH: 30}
+
+func TestC13(t *testing.T) {
+	RunCheck(t, CheckSpec{Prop: "C13",
+		Rule:   "1-4 instances (followers, a leader, takeover-enabled candidates) while an outside party writes values from the descriptor grammar of C04 (plus raw bytes, phantom payloads with priorities above/below/equal, empty and very large values) and deletes the key at generated times; latencies include 0; oracle: no crash / hang / spin / unbounded recursion (process-level, watchdog), store operations per object bounded by delivered events and ticks, every promotion directly follows the object's own successful Create or strictly-higher-priority takeover of a decodable record, a leader whose record is rewritten or deleted is demoted within H+2T+RTT. Non-trivial = an outside write that is not the canonical payload currently live, landing after some instance started; distinct by plan hash.",
+		Gen:    func(t *rapid.T) *Plan { return GenPlan(t, "tamper", knobsTamper) },
+		Oracle: OracleC13,
+		Fixed:  func() []*Plan { return LoadRegressions("C13") }})
+}
